@@ -39,6 +39,10 @@ extern int mpt_parse_format(MPT_STRUCT(parser_format) *fmt, const char *str)
 	*fmt = pfmt_default;
 	fmt->sstart = i;
 	
+	/* description ends before section end position */
+	if (!str[0] || !str[1]) {
+		return ret;
+	}
 	/* separate delimiter */
 	if (str[2]) fmt->send = isspace(str[2]) ? 0 : str[2];
 	else return ret;
